@@ -376,4 +376,83 @@ def quantScene (s : Scene) : Scene :=
   { s with events := s.events.map qEvent, actors := s.actors.map qActor,
            ramp := s.ramp.map qRampSample }
 
+
+/-! ## saving a scenes.image whose entries come from several places
+
+`save_scenes_image_sync` as coded, for a mix of entries holding a parsed `Scene` and *lazy* entries
+(raw BVCD bytes + the string pool object of the image they were read from).  Pool objects are
+compared by identity (`is`), modelled by a number. -/
+
+inductive Src
+  | scene (s : Scene)
+  | lazy (poolId : Nat) (pool : List Bytes) (raw : Bytes)
+deriving Repr
+
+structure MEntry where
+  crc : Nat
+  durMs : Nat
+  lastMs : Nat
+  sounds : List Bytes
+  src : Src
+  /-- LZMA form of the data this entry ends up with (opaque, supplied by the caller). -/
+  comp : Bytes
+deriving Repr
+
+/-- First loop: is there one pool to reuse? `(pool to reuse, two_pools)`. -/
+def poolMode : List MEntry → Option (Nat × List Bytes) → Option (Nat × List Bytes) × Bool
+  | [], cur => (cur, false)
+  | e :: es, cur =>
+    match e.src, cur with
+    | .scene _, _ => poolMode es cur
+    | .lazy i p _, none => poolMode es (some (i, p))
+    | .lazy i _ _, some (j, q) => if i = j then poolMode es (some (j, q)) else (none, true)
+
+/-- The scene an entry is exported from when it has to be (re-)encoded: `entry.data`. -/
+def entryScene (e : MEntry) : Option Scene :=
+  match e.src with
+  | .scene s => some s
+  | .lazy _ p raw => decodeScene p raw
+
+/-- strings the second loop adds for this entry after its sounds. -/
+def entryStrs (two : Bool) (e : MEntry) : Option (List Bytes) :=
+  match e.src, two with
+  | .lazy _ _ _, false => some []
+  | _, _ => (entryScene e).map sceneStrs
+
+def entryRaw (two : Bool) (ix : Bytes → Nat) (e : MEntry) : Option Bytes :=
+  match e.src, two with
+  | .lazy _ _ raw, false => some raw
+  | _, _ => (entryScene e).map (encScene ix)
+
+/-- the layout of `buildImage`, starting from a pool that already holds strings. -/
+def buildImageFrom (pool0 : List Bytes) (version : Nat) (es : List Entry) : Bytes :=
+  let pool := es.foldl (fun p e => addAll (addAll p e.sounds) e.strs) pool0
+  let sorted := sortEntries es
+  let strs := pool.map (· ++ [0])
+  let sums := sorted.map (summaryBytes version pool)
+  let datas := sorted.map stored
+  let poolOff := 20 + 4 * pool.length
+  let sceneOff := poolOff + totalLen strs
+  let sumOff := sceneOff + 16 * sorted.length
+  let dataOff := sumOff + totalLen sums
+  (imgMagic ++ (le32 version ++ (le32 sorted.length ++ (le32 pool.length ++ le32 sceneOff)))) ++
+    (((offsets poolOff (lens strs)).map le32).flatten ++ (strs.flatten ++
+      ((tableRows sorted (offsets dataOff (lens datas)) (offsets sumOff (lens sums))).flatten ++
+        (sums.flatten ++ datas.flatten))))
+
+/-- `save_scenes_image_sync(file, entries, version=…)`; `none` = an exception (a lazy entry that
+does not decode with its own pool). -/
+def saveImage (version : Nat) (es : List MEntry) : Option Bytes :=
+  let mode := poolMode es none
+  let two := mode.2
+  let pool0 := match mode.1 with
+    | some (_, p) => p
+    | none => []
+  (mapOpt (fun e => (entryStrs two e).map fun st => (e, st)) es).bind fun withStrs =>
+  let pool := withStrs.foldl (fun p x => addAll (addAll p x.1.sounds) x.2) pool0
+  (mapOpt (fun x : MEntry × List Bytes => (entryRaw two (poolIndex pool) x.1).map fun raw =>
+      ({ crc := x.1.crc, durMs := x.1.durMs, lastMs := x.1.lastMs, sounds := x.1.sounds,
+         strs := x.2, raw := raw, comp := x.1.comp } : Entry)) withStrs).map fun entries =>
+  buildImageFrom pool0 version entries
+
 end C20.Bvcd
